@@ -220,3 +220,121 @@ Fixpoint nodup_b (l : list N) : bool :=
 Definition f13_history (n : N) : list hev :=
   HReq (RPub 1 0) ::
   snd (N.iter n (fun st => let '(k, l) := st in (k - 1, HReq (RPub 1 0) :: HAck k :: l)) (n, [])).
+
+(* ====================================================================================
+   The identifier field of a message through the retrying client (retryclient.go).
+
+   A *Message is an object whose ID field publishImpl fills once (publish.go:136-138); the retry
+   handle of an interrupted publish keeps that object, and a message submitted while the retry
+   queue is not empty is stored as a COPY OF THE WHOLE VALUE (retryclient.go:167-173,
+   `copyMsg := *message`), identifier included. Both are therefore "caller-provided" identifiers
+   for the connection that finally transmits them.
+
+   Only what matters for the identifier is modelled: QoS 1/2 publishes, connections that are cut at
+   a chosen PUBLISH attempt (after which every further attempt on that connection fails), the task
+   loop that stops at a failed task until the next connection, Retry() after every Connect.
+   ==================================================================================== *)
+
+(* r_given: what the caller put into Message.ID (0 = nothing); r_id: the ID field now *)
+Record rmsg := mk_rmsg { r_tag : N; r_qos : N; r_given : N; r_id : N }.
+
+Definition submitted (tag qos given : N) : rmsg := mk_rmsg tag qos given given.
+
+(* publish.go:136-138 on the message object, counter of the transmitting connection = c *)
+Definition fill (c : N) (m : rmsg) : N * rmsg :=
+  if r_id m =? 0 then let '(c', id) := new_id c in (c', mk_rmsg (r_tag m) (r_qos m) (r_given m) id)
+  else (c, m).
+
+(* retryclient.go:168 `copyMsg := *message` *)
+Definition defer_copy (m : rmsg) : rmsg := m.
+
+(* retry queue entries: the retry handle of an interrupted request (ErrorWithRetry: on failure
+   Retry() stops and keeps the rest), or a deferred first transmission (on failure it queues its
+   own retry handle and Retry() goes on) *)
+Inductive qent := QRetry (m : rmsg) | QDeferred (m : rmsg).
+Definition ent_msg (e : qent) : rmsg := match e with QRetry m => m | QDeferred m => m end.
+
+Inductive rtask := TPub (m : rmsg) | TRetry.
+
+(* counter of the current connection, its number, is it usable, PUBLISH attempts until the peer
+   cuts it (0 = never), retry queue *)
+Record rstate := RS { rs_c : N; rs_conn : N; rs_alive : bool; rs_cut : nat; rs_q : list qent }.
+
+Definition set_q (st : rstate) (q : list qent) : rstate :=
+  RS (rs_c st) (rs_conn st) (rs_alive st) (rs_cut st) q.
+
+(* one PUBLISH attempt: the identifier is taken (if the field is empty) before the write, also on
+   a dead connection; returns the new state, success, the message as it was sent *)
+Definition transmit (st : rstate) (m : rmsg) : rstate * bool * rmsg :=
+  let '(c', m') := fill (rs_c st) m in
+  if rs_alive st then
+    match rs_cut st with
+    | O => (RS c' (rs_conn st) true O (rs_q st), true, m')
+    | S O => (RS c' (rs_conn st) false O (rs_q st), false, m')
+    | S k => (RS c' (rs_conn st) true k (rs_q st), true, m')
+    end
+  else (RS c' (rs_conn st) false O (rs_q st), false, m').
+
+Definition wire := list (N * rmsg).          (* (connection number, message as sent) *)
+
+(* RetryClient.publish, retryclient.go:146-176 *)
+Definition publish_task (st : rstate) (m : rmsg) : rstate * wire :=
+  match rs_q st with
+  | [] => let '(st', ok, m') := transmit st m in
+          (if ok then st' else set_q st' [QRetry m'], [(rs_conn st, m')])
+  | _ :: _ => (if 0 <? r_qos m then set_q st (rs_q st ++ [QDeferred (defer_copy m)]) else st, [])
+  end.
+
+(* the loop of RetryClient.Retry, retryclient.go:470-489; rs_q st is the queue being rebuilt *)
+Fixpoint retry_loop (st : rstate) (old : list qent) : rstate * wire :=
+  match old with
+  | [] => (st, [])
+  | QRetry m :: rest =>
+      let '(st', ok, m') := transmit st m in
+      if ok then let '(st'', w) := retry_loop st' rest in (st'', (rs_conn st, m') :: w)
+      else (set_q st' (rs_q st' ++ QRetry m' :: rest), [(rs_conn st, m')])
+  | QDeferred m :: rest =>
+      let '(st', ok, m') := transmit st m in
+      let st1 := if ok then st' else set_q st' (rs_q st' ++ [QRetry m']) in
+      let '(st'', w) := retry_loop st1 rest in (st'', (rs_conn st, m') :: w)
+  end.
+
+Definition run_task (st : rstate) (t : rtask) : rstate * wire :=
+  match t with
+  | TPub m => publish_task st m
+  | TRetry => retry_loop (set_q st []) (rs_q st)
+  end.
+
+(* the task goroutine: tasks in submission order; after a failed task it waits for the next
+   connection (retryclient.go:365-369), the remaining tasks stay queued *)
+Fixpoint drain (st : rstate) (ts : list rtask) : rstate * list rtask * wire :=
+  match ts with
+  | [] => (st, [], [])
+  | t :: rest =>
+      if rs_alive st then
+        let '(st', w) := run_task st t in
+        let '(st'', lft, w') := drain st' rest in (st'', lft, w ++ w')
+      else (st, ts, [])
+  end.
+
+(* what the application does: publish (tag, qos, caller's identifier), or bring up a new connection
+   whose counter starts at s and whose peer cuts it at the cut-th PUBLISH attempt, then Retry() *)
+Inductive xop := XPub (tag qos given : N) | XConn (s : N) (cut : nat).
+
+Fixpoint run_retry_from (st : rstate) (pend : list rtask) (ops : list xop) : wire :=
+  match ops with
+  | [] => []
+  | XPub tag qos g :: rest =>
+      let '(st', lft, w) := drain st (pend ++ [TPub (submitted tag qos g)]) in
+      w ++ run_retry_from st' lft rest
+  | XConn s cut :: rest =>
+      let st0 := RS s (rs_conn st + 1) true cut (rs_q st) in
+      let '(st', lft, w) := drain st0 (pend ++ [TRetry]) in
+      w ++ run_retry_from st' lft rest
+  end.
+
+Definition run_retry (ops : list xop) : wire := run_retry_from (RS 0 0 false O []) [] ops.
+
+(* a transmitted message is in order: non-zero identifier, and the caller's if it gave one *)
+Definition sent_ok (m : rmsg) : bool :=
+  negb (r_id m =? 0) && ((r_given m =? 0) || (r_id m =? r_given m)).
